@@ -844,6 +844,7 @@ impl<'a> TypeEncoder<'a> {
 
         let ty = kind.ty();
         let index = self.ty(state, ty, Some(name));
+        let instance_index = state.current.encodable.instance_count();
         let index = Self::export_type(
             state,
             name,
@@ -856,6 +857,15 @@ impl<'a> TypeEncoder<'a> {
                 ItemKind::Value(_) => ComponentTypeRef::Value(ComponentValType::Type(index)),
             },
         );
+
+        // An exported instance of a named interface is available for aliasing by
+        // later items of this scope; without this a later export that uses its
+        // types would import the interface a second time.
+        if let ItemKind::Instance(id) = kind {
+            if let Some(iid) = &self.0[id].id {
+                state.current.instances.insert(iid.clone(), instance_index);
+            }
+        }
 
         // For types, remap to the index of the exported item
         if let ItemKind::Type(ty) = kind {
